@@ -7,9 +7,25 @@ Started as `python worker.py <verif-dir>` and driven over a JSON-lines pipe:
   {"op": "run", "text":..., "mode": "exec"|"eval", "sched": 0, "fuel": 200000}
                                                    -> {"ok":..., "err":..., "errmsg":..., "stdout":..., "log_len":..., "globals": {...}}
   {"op": "compile", "text":..., "mode": ...}       -> {"ok": bool, "err": ...}
+  {"op": "roundtrip", "repo":..., "sources": [...]} -> {"ok": true, "parsed": n, "failures": [[index, why], ...]}
 """
 import json
 import sys
+
+
+def _rt_norm(n):
+    import ast
+    if isinstance(n, ast.AST):
+        if isinstance(n, ast.Constant):
+            v = n.value
+            if type(v) is int:
+                return ("Constant", "int", hex(v))
+            return ("Constant", type(v).__name__, repr(v))
+        return (type(n).__name__, tuple((f, _rt_norm(getattr(n, f, None))) for f in n._fields
+                                         if f not in ("ctx", "kind", "type_comment")))
+    if isinstance(n, list):
+        return tuple(_rt_norm(x) for x in n)
+    return n
 
 
 def main():
@@ -63,6 +79,37 @@ def main():
                     check_stdout=job.get("check_stdout", True))
                 res = {"ok": True, "status": status, "orig_err": orig.get("err"),
                        "failures": [[list(c), d] for (c, d, t) in failures]}
+            elif op == "roundtrip":
+                # C03/C04 under THIS host: parse each source, unparse with the project's unparser, parse
+                # the text back here, compare the trees (modulo ctx / kind), no line break in the text
+                repo = job["repo"]
+                if sys.path[0] != repo:
+                    sys.path.insert(0, repo)
+                import ast
+                from oneliner.expr_unparse import expr_unparse
+                fails, parsed = [], 0
+                for idx, src in enumerate(job["sources"]):
+                    try:
+                        tree = ast.parse(src, mode="eval").body
+                    except (SyntaxError, ValueError, RecursionError, MemoryError):
+                        continue
+                    parsed += 1
+                    try:
+                        text = expr_unparse(tree)
+                    except BaseException as e:
+                        fails.append([idx, "expr_unparse raised %s: %s" % (type(e).__name__, str(e)[:120])])
+                        continue
+                    if "\n" in text or "\r" in text:
+                        fails.append([idx, "unparsed text contains a line break"])
+                        continue
+                    try:
+                        back = ast.parse(text, mode="eval").body
+                    except BaseException as e:
+                        fails.append([idx, "unparsed text does not parse on this host: %s: %r" % (type(e).__name__, text[:120])])
+                        continue
+                    if _rt_norm(tree) != _rt_norm(back):
+                        fails.append([idx, "tree differs after the round trip on this host: %r" % text[:120]])
+                res = {"ok": True, "parsed": parsed, "failures": fails[:20], "n_failures": len(fails)}
             elif op == "compile":
                 try:
                     compile(job["text"], "<w>", job.get("mode", "exec"))
